@@ -352,13 +352,101 @@ def targeted(game, rng: Rng, ctx) -> None:
             ctx.count(f"targeted:refused:{type(e).__name__}")
 
 
+def saturate(game, rng: Rng, ctx, inside_tick: bool) -> None:
+    """Drive EVERY observed leaf of EVERY observed node away from its default in one step: malicious network events on every capturing
+    interface (both directions; the counters are cumulative, so before the tick is fine), and — inside the tick, after `pre_timestep`
+    cleared the per-step counters — executions, accesses, creations, deletions, log-ins, interface traffic, link load."""
+    comps = observed_components(game)
+    for host in sorted(comps):
+        node = game.simulation.network.get_node_by_hostname(host)
+        if node is None or node.operating_state.value != 1:
+            continue
+        c = comps[host]
+        try:
+            if not inside_tick:
+                for nic in node.network_interface.values():
+                    if nic.nmne_settings.capture_nmne:
+                        for dr in ("inbound", "outbound"):
+                            d = nic.nmne.setdefault("direction", {}).setdefault(dr, {}).setdefault("keywords", {})
+                            d["*"] = d.get("*", 0) + rng.choice([1, 2, 6, 11])
+                        ctx.count("takeaway:saturate:nmne")
+                continue
+            for name in c["applications"]:
+                app = next((a for a in node.applications.values() if a.name == name), None)
+                if app is not None:
+                    app.num_executions += rng.choice([1, 6, 11])
+            for fo, fi in c["files"]:
+                if node.file_system.get_file(fo, fi) is None:
+                    node.file_system.create_file(file_name=fi, folder_name=fo)
+                for _ in range(rng.choice([1, 6, 11])):
+                    node.file_system.access_file(fo, fi)
+            for i in range(2):
+                nm = f"s{rng.below(100000)}.txt"
+                node.file_system.create_file(file_name=nm, folder_name="root")
+                if i:
+                    node.file_system.delete_file("root", nm)
+            if hasattr(node, "user_session_manager"):
+                node.user_session_manager.local_login("admin", "admin")
+                node.user_session_manager.remote_login("admin", "admin", f"10.9.{rng.below(200)}.{1 + rng.below(200)}")
+            for nic in node.network_interface.values():
+                sp = nic.speed
+                nic.traffic = {"icmp": {"inbound": sp * 0.3, "outbound": sp * 0.25}, "tcp": {80: {"inbound": sp * 0.5, "outbound": sp * 0.12},
+                               53: {"inbound": sp * 0.4, "outbound": sp * 0.7}, 5432: {"inbound": sp * 0.03, "outbound": sp * 0.07}},
+                               "udp": {53: {"inbound": sp * 0.8, "outbound": sp * 0.01}}}
+            ctx.count("takeaway:saturate:counters-inside-the-tick")
+        except Exception as e:  # noqa: BLE001 - a refused event is not an observation concern
+            ctx.count(f"takeaway:refused:{type(e).__name__}")
+    if inside_tick:
+        for link in game.simulation.network.links.values():
+            link.current_load = link.bandwidth * rng.choice([0.12, 0.5, 0.95])
+
+
+def take_away(game, rng: Rng, ctx, how: str) -> None:
+    """After `saturate`: take the observed components away — `power`: every observed node is switched off (its observation must read
+    the default at every tick of the countdown, while OFF and while booting); `remove`: observed files / folders are deleted, observed
+    software is uninstalled, interfaces disabled, ACL rules removed (each must read as its default / its own encoding)."""
+    comps = observed_components(game)
+    for host in sorted(comps):
+        node = game.simulation.network.get_node_by_hostname(host)
+        if node is None:
+            continue
+        c = comps[host]
+        try:
+            if how == "power":
+                node.power_off()
+                ctx.count("takeaway:power_off:" + type(node).__name__)
+            elif how == "power_on":
+                node.power_on()
+            else:
+                for fo, fi in c["files"]:
+                    if rng.chance(1, 2) and node.file_system.get_file(fo, fi) is not None:
+                        node.file_system.delete_file(fo, fi)
+                        ctx.count("takeaway:remove:file")
+                for fo in c["folders"]:
+                    if rng.chance(1, 3) and fo != "root" and node.file_system.get_folder(fo) is not None:
+                        node.file_system.delete_folder(fo)
+                        ctx.count("takeaway:remove:folder")
+                for name in list(c["applications"]):
+                    if rng.chance(1, 2) and name in node.software_manager.software:
+                        node.software_manager.uninstall(name)
+                        ctx.count("takeaway:remove:application")
+                for nic in node.network_interface.values():
+                    if rng.chance(1, 3):
+                        nic.disable()
+        except Exception as e:  # noqa: BLE001
+            ctx.count(f"takeaway:refused:{type(e).__name__}")
+
+
 def install_midstep(game, rng: Rng, ctx) -> None:
     """instrumentation on THIS game object only (a new game is built at every reset): after the agents' actions, inside the tick"""
     orig = game.apply_agent_actions
 
     def apply_then_events():
         orig()
-        if rng.chance(2, 3):
+        if getattr(game, "_verif_saturate", False):
+            game._verif_saturate = False
+            saturate(game, rng, ctx, inside_tick=True)
+        elif rng.chance(2, 3):
             targeted(game, rng, ctx)
     game.apply_agent_actions = apply_then_events
 
@@ -440,6 +528,7 @@ def run_recipe(ctx, recipe: dict, chaos: Optional[Callable] = None) -> dict:
         ctx.count("env:space-read:at-construction")
 
         flat_len: Dict[int, int] = {}
+        defaults0: Dict[str, list] = {}  # track -> [(path, object, canonical default_observation right after this episode's reset)]
 
         def snapshot(ep: int, step: int, env_obs, sp_ep, as_ep):
             game = env.game
@@ -488,6 +577,20 @@ def run_recipe(ctx, recipe: dict, chaos: Optional[Callable] = None) -> dict:
                     sp = agent.observation_manager.space
                     nested_of[name] = sp
                     ok_nested = bool(sp.contains(cur))
+                # alias oracle: no observe() may write into a stored default observation (of this object or of a sibling)
+                for pth0, o0, d0 in defaults0.get(f"{ep}:{name}", ()):
+                    try:
+                        d1 = rig.canon(o0.default_observation)
+                    except Exception:  # noqa: BLE001
+                        continue
+                    if d1 != d0:
+                        ctx.count("env:alias-oracle:default_observation-changed")
+                        oracle_fail.append({"scenario": label, "agent": name, "episode": ep, "step": step, "alias": type(o0).__name__,
+                                            "bad": [f"default_observation of {type(o0).__name__} at {pth0} was changed by observe(): {rig.first_diff(d0, d1)}"]})
+                        defaults0[f"{ep}:{name}"] = []
+                        break
+                else:
+                    ctx.count("env:alias-oracle:defaults-unchanged")
                 tr["lines"].append(("spec " + " ".join(ttoks)) if want_truth else ("obs " + " ".join(toks)))
                 ccur = rig.canon(cur)
                 tr["impl"].append((ccur, ok_nested, fb))
@@ -576,6 +679,13 @@ def run_recipe(ctx, recipe: dict, chaos: Optional[Callable] = None) -> dict:
                     dflt = rig.canon(mgr.obs.default_observation)
                 except Exception:  # noqa: BLE001
                     dflt = None
+                try:
+                    walked = rig.walk(mgr.obs)
+                    # innermost objects first: a write into a child's default shows in every ancestor that embeds it
+                    defaults0[f"{ep}:{name}"] = [(p_, o_, rig.canon(o_.default_observation)) for p_, o_ in sorted(walked, key=lambda x: -x[0].count("/"))
+                                                 if hasattr(o_, "default_observation")]
+                except Exception:  # noqa: BLE001
+                    defaults0[f"{ep}:{name}"] = []
                 tracks[f"{ep}:{name}"] = {"lines": lines, "impl": impl, "first": len(lines), "mode": mode, "show_at": None, "default": dflt,
                                           "ever": set(), "flat": [], "flatten": bool(agent.flatten_obs), "leaves": len(leaf_paths(dflt)) if dflt is not None else 0}
             sp_ep, as_ep = snapshot(ep, 0, obs, None, None)
@@ -596,14 +706,29 @@ def run_recipe(ctx, recipe: dict, chaos: Optional[Callable] = None) -> dict:
             except Exception:  # noqa: BLE001
                 acl_actions = []
             burst = 0
+            script = None
+            if recipe.get("takeaway"):
+                t0 = 2 + rng.below(4)
+                script = {"sat": t0, "away": t0 + 1, "on": t0 + 1 + rng.choice([1, 2, 4, 6]), "how": rng.choice(["power", "power", "remove"])}
             for t in range(steps):
+                if script is not None:
+                    if t == script["sat"]:
+                        saturate(env.game, rng, ctx, inside_tick=False)
+                        env.game._verif_saturate = True
+                    elif t == script["away"]:
+                        take_away(env.game, rng, ctx, script["how"])
+                    elif t == script["on"] and script["how"] == "power":
+                        take_away(env.game, rng, ctx, "power_on")
+                    elif t == script["on"] + 8 and t + 4 < steps:  # once more in the same episode, the other way
+                        t0 = t + 1
+                        script = {"sat": t0, "away": t0 + 1, "on": t0 + 1 + rng.choice([1, 2, 4, 6]), "how": "remove" if script["how"] == "power" else "power"}
                 if t % 7 == 0:
                     burst = rng.below(n)
                 act = burst if rng.chance(1, 2) else rng.below(n)
                 if acl_actions and rng.chance(1, 4):
                     act = rng.choice(acl_actions)
                     ctx.count("env:acl-add-rule-actions-chosen")
-                if use_chaos is not None:
+                if use_chaos is not None and not (script is not None and script["sat"] <= t <= script["on"]):
                     use_chaos(env.game, rng)
                 obs, _r, _te, trunc, _info = env.step(act)
                 ctx.count("env:steps")
@@ -646,7 +771,9 @@ def check_env(ctx, rname: str, res: dict, model_by_track: Dict[str, List[str]], 
     recipe = res["recipe"]
     for f in res["oracle_fail"]:
         what = f["bad"][0] if f["bad"] else "?"
-        if f["agent"] == "<api>":
+        if f.get("alias"):
+            sig = {"kind": "default-observation-mutated", "class": f["alias"], "property_oracle": "observe() leaves every default_observation as constructed"}
+        elif f["agent"] == "<api>":
             import re
             sig = {"kind": "env-api", "what": re.sub(r"\d+", "N", what.split(" (")[0])[:110], "property_oracle": "observation_space.contains(obs)"}
         else:
